@@ -414,7 +414,12 @@ class ChangeToData:
         return (description, changes, change.time)
 
     def convertChangeContents(self, change):
-        return (change.resource.path, change.new_contents, change.old_contents)
+        return (
+            change.resource.path,
+            change.new_contents,
+            change.old_contents,
+            change._old_newlines,
+        )
 
     def convertMoveResource(self, change):
         return (
@@ -447,9 +452,12 @@ class DataToChange:
             result.add_change(self(child))
         return result
 
-    def makeChangeContents(self, path, new_contents, old_contents):
+    def makeChangeContents(self, path, new_contents, old_contents, old_newlines=None):
         resource = self.project.get_file(path)
-        return ChangeContents(resource, new_contents, old_contents)
+        result = ChangeContents(resource, new_contents, old_contents)
+        # what `do()` found; `undo()` restores the file with it
+        result._old_newlines = old_newlines
+        return result
 
     def makeMoveResource(self, old_path, new_path, is_folder=False):
         if is_folder:
